@@ -165,3 +165,206 @@ pub fn c14_extra(_args: &[String]) {
     }
     rep.print();
 }
+
+// ---------------------------------------------------------------------------
+// C13: value types of different size / alignment; type erasure
+// ---------------------------------------------------------------------------
+use std::sync::atomic::{AtomicI64, Ordering as AO};
+
+macro_rules! counted {
+    ($name:ident, $ctr:ident, $($body:tt)*) => {
+        static $ctr: (AtomicI64, AtomicI64) = (AtomicI64::new(0), AtomicI64::new(0));
+        $($body)*
+        impl Drop for $name {
+            fn drop(&mut self) {
+                $ctr.1.fetch_add(1, AO::SeqCst);
+            }
+        }
+    };
+}
+counted!(Zst, C_ZST, pub struct Zst;);
+counted!(OneByte, C_ONE, pub struct OneByte(pub u8););
+counted!(Heap, C_HEAP, pub struct Heap(pub Vec<u64>, pub String););
+counted!(Align64, C_ALIGN, #[repr(align(64))] pub struct Align64(pub [u8; 96]););
+
+pub trait Probe: Sized + Send + Sync + 'static {
+    fn make(n: u8) -> Self;
+    fn check(&self, n: u8) -> bool;
+    fn ctr() -> &'static (AtomicI64, AtomicI64);
+    const NAME: &'static str;
+}
+impl Probe for Zst {
+    fn make(_n: u8) -> Self { C_ZST.0.fetch_add(1, AO::SeqCst); Zst }
+    fn check(&self, _n: u8) -> bool { true }
+    fn ctr() -> &'static (AtomicI64, AtomicI64) { &C_ZST }
+    const NAME: &'static str = "zero-sized";
+}
+impl Probe for OneByte {
+    fn make(n: u8) -> Self { C_ONE.0.fetch_add(1, AO::SeqCst); OneByte(n) }
+    fn check(&self, n: u8) -> bool { self.0 == n }
+    fn ctr() -> &'static (AtomicI64, AtomicI64) { &C_ONE }
+    const NAME: &'static str = "one byte";
+}
+impl Probe for Heap {
+    fn make(n: u8) -> Self { C_HEAP.0.fetch_add(1, AO::SeqCst); Heap(vec![n as u64; 37], format!("heap-{n}")) }
+    fn check(&self, n: u8) -> bool { self.0.len() == 37 && self.0.iter().all(|x| *x == n as u64) && self.1 == format!("heap-{n}") }
+    fn ctr() -> &'static (AtomicI64, AtomicI64) { &C_HEAP }
+    const NAME: &'static str = "heap-owning";
+}
+impl Probe for Align64 {
+    fn make(n: u8) -> Self { C_ALIGN.0.fetch_add(1, AO::SeqCst); Align64([n; 96]) }
+    fn check(&self, n: u8) -> bool { self.0.iter().all(|x| *x == n) && (self as *const _ as usize) % 64 == 0 }
+    fn ctr() -> &'static (AtomicI64, AtomicI64) { &C_ALIGN }
+    const NAME: &'static str = "over-aligned (64)";
+}
+
+macro_rules! probe_asset {
+    ($t:ty) => {
+        impl assets_manager::Asset for $t {
+            const EXTENSION: &'static str = "x";
+            type Loader = ProbeLoader;
+        }
+    };
+}
+pub struct ProbeLoader;
+impl<T: Probe> assets_manager::loader::Loader<T> for ProbeLoader {
+    fn load(content: std::borrow::Cow<[u8]>, _ext: &str) -> Result<T, BoxedError> {
+        let n = crate::assets::parse_leaf(&content).ok_or("bad")? as u8;
+        Ok(T::make(n))
+    }
+}
+probe_asset!(Zst);
+probe_asset!(OneByte);
+probe_asset!(Heap);
+probe_asset!(Align64);
+
+fn probe_type<T: Probe + assets_manager::Asset>(rep: &mut Report) {
+    let ctr = T::ctr();
+    let (c0, d0) = (ctr.0.load(AO::SeqCst), ctr.1.load(AO::SeqCst));
+    let live = || (ctr.0.load(AO::SeqCst) - c0) - (ctr.1.load(AO::SeqCst) - d0);
+    let mut bad = |what: &str| rep.mismatch(json!({"what": what, "type": T::NAME}));
+    let src = MemSource::new(true);
+    src.put("a", "x", b"v1");
+    src.put("b", "x", b"v2");
+    {
+        let mut cache = AssetCache::with_source(src.clone());
+        // load, reload (replacement), take, remove, get_or_insert (loser), clear, drop
+        let h = cache.load::<T>("a").unwrap();
+        if !h.read().check(1) { bad("loaded value is wrong"); }
+        if live() != 1 { bad("live values after one load != 1"); }
+        for round in 2..5u8 {
+            src.put("a", "x", format!("v{round}").as_bytes());
+            src.send(&[OwnedDirEntry::File("a".into(), "x".into())]);
+            let before = rid_of(h.last_reload_id());
+            let t0 = std::time::Instant::now();
+            while rid_of(h.last_reload_id()) == before && t0.elapsed() < std::time::Duration::from_secs(5) {
+                cache.hot_reload();
+            }
+            if !h.read().check(round) { bad("value after a reload is wrong (byte swap of the erased value)"); }
+            if live() != 1 { bad("a reload leaked or double-dropped the replaced value"); }
+        }
+        let _ = cache.load::<T>("b").unwrap();
+        if live() != 2 { bad("live values after two loads != 2"); }
+        let taken = cache.take::<T>("b");
+        match &taken {
+            Some(v) if v.check(2) => {}
+            _ => bad("take did not hand back the stored value"),
+        }
+        if live() != 2 { bad("take dropped (or duplicated) the value it returned"); }
+        drop(taken);
+        if live() != 1 { bad("the taken value was not dropped by its new owner exactly once"); }
+        let loser = T::make(9);
+        let kept = cache.get_or_insert::<T>("a", loser);
+        if !kept.read().check(4) { bad("get_or_insert overwrote a present value"); }
+        if live() != 1 { bad("the losing get_or_insert argument was not dropped exactly once"); }
+        let o = cache.load_owned::<T>("b").unwrap();
+        if live() != 2 || !o.check(2) { bad("load_owned did not pass ownership of exactly one value"); }
+        drop(o);
+        if !cache.remove::<T>("a") || live() != 0 { bad("remove did not drop exactly the stored value"); }
+        let _ = cache.load::<T>("a");
+        let _ = cache.load::<T>("b");
+        cache.clear();
+        if live() != 0 { bad("clear did not drop every stored value exactly once"); }
+        let _ = cache.load::<T>("a");
+        let _ = cache.get_or_insert::<T>("ins", T::make(7));
+    }
+    if live() != 0 { bad("dropping the cache did not drop every stored value exactly once"); }
+    rep.cases += 1;
+}
+
+/// `amv c13-types`
+pub fn c13_types(_args: &[String]) {
+    let mut rep = Report::default();
+    probe_type::<Zst>(&mut rep);
+    probe_type::<OneByte>(&mut rep);
+    probe_type::<Heap>(&mut rep);
+    probe_type::<Align64>(&mut rep);
+    // type erasure: (stored type, requested type) pairs
+    let src = MemSource::new(false);
+    src.put("a", "x", b"v1");
+    let cache = AssetCache::with_source(src);
+    macro_rules! pairs {
+        ($stored:ty; $($req:ty),*) => {{
+            let h = cache.load::<$stored>("a").unwrap().as_untyped();
+            $(
+                rep.checks += 1;
+                let same = std::any::TypeId::of::<$stored>() == std::any::TypeId::of::<$req>();
+                if h.is::<$req>() != same || h.downcast_ref::<$req>().is_some() != same {
+                    rep.mismatch(json!({"what":"an untyped handle can be viewed as a type it was not created with",
+                        "stored":stringify!($stored),"requested":stringify!($req)}));
+                }
+                if h.read().downcast::<$req>().is_ok() != same {
+                    rep.mismatch(json!({"what":"an untyped read guard downcasts to the wrong type",
+                        "stored":stringify!($stored),"requested":stringify!($req)}));
+                }
+            )*
+        }};
+    }
+    pairs!(Zst; Zst, OneByte, Heap, Align64, Leaf<0>);
+    pairs!(OneByte; Zst, OneByte, Heap, Align64, Leaf<0>);
+    pairs!(Heap; Zst, OneByte, Heap, Align64, Leaf<0>);
+    pairs!(Align64; Zst, OneByte, Heap, Align64, Leaf<0>);
+    pairs!(Leaf<0>; Zst, OneByte, Heap, Align64, Leaf<0>, Leaf<1>);
+    // same id, different types never alias
+    rep.checks += 1;
+    if cache.get_cached::<Leaf<1>>("a").is_some() || cache.contains::<Leaf<2>>("a") {
+        rep.mismatch(json!({"what":"an entry is visible under another type with the same id"}));
+    }
+    rep.print();
+}
+
+/// `amv c01-fronts <seed>`: the same handle through every front-end, before and after growth.
+pub fn c01_fronts(_args: &[String]) {
+    let mut rep = Report::default();
+    let src = MemSource::new(false);
+    src.st.lock().unwrap().trace_reads = false;
+    src.put("a", "x", b"v1");
+    macro_rules! body {
+        ($cache:expr, $name:expr) => {{
+            let cache = $cache;
+            rep.cases += 1;
+            let h1 = cache.load::<Leaf<0>>("a").unwrap();
+            let h2 = cache.as_any_cache().load::<Leaf<0>>("a").unwrap();
+            let h3 = cache.get_cached::<Leaf<0>>("a").unwrap();
+            let h4 = cache.as_any_cache().get_or_insert::<Leaf<0>>("a", Leaf::from_data(json!({"t":"stor","c":1})).unwrap());
+            let tok = h1.read().0.tok;
+            for i in 0..5000 {
+                let _ = cache.get_or_insert::<Stor>(&format!("n{i}"), Stor::from_data(json!({"t":"stor","c":i})).unwrap());
+            }
+            let h5 = cache.load::<Leaf<0>>("a").unwrap();
+            rep.checks += 1;
+            if ![h2, h3, h4, h5].iter().all(|h| std::ptr::eq(*h, h1)) {
+                rep.mismatch(json!({"what":"front-ends / later calls return different handles for one key","front":$name}));
+            }
+            if h1.read().0.tok != tok || !cache.contains::<Leaf<0>>("a") || h1.id().as_str() != "a" {
+                rep.mismatch(json!({"what":"a long-lived handle no longer reads its value after 5000 unrelated insertions","front":$name}));
+            }
+        }};
+    }
+    body!(AssetCache::without_hot_reloading(src.clone()), "AssetCache");
+    body!(LocalAssetCache::with_source(src.clone()), "LocalAssetCache");
+    let hot = MemSource::new(true);
+    hot.put("a", "x", b"v1");
+    body!(AssetCache::with_source(hot), "AssetCache+reloader");
+    rep.print();
+}
